@@ -2,6 +2,7 @@
 
 use crate::artefacts::*;
 use crate::certeval::*;
+use crate::certspace::*;
 use crate::glue::*;
 use crate::keys::*;
 use crate::run;
@@ -240,6 +241,88 @@ pub fn run(prop: &str, tier: &str, replay: Option<&str>) -> i32 {
                     out.digest = fnv(pem.as_bytes());
                 }
                 other => out.unexpected_err = Some(format!("{:?}", other.map(|r| r.map(|_| ())))),
+            }
+            out
+        });
+        rep.add(sec);
+    }
+    // 5. every parameter state at levels k<=3 (thorough 4; CSR and CRL 2, thorough 3): whatever the content, the PEM is the strict envelope of the DER
+    {
+        let k = if thorough { 4 } else { 3 };
+        let space = cert_space(false, true);
+        let sec = Section::new("levels/cert-pem", "every certificate state differing from the default in <= k fields (all field alphabets), self-signed with a real key: PEM judged by the strict RFC 7468 reader, label CERTIFICATE, decoded bytes == der()").with_deadline(if thorough { 900 } else { 30 });
+        run::levels(&sec, &space, k, &|st, _| {
+            let mut out = Outcome::default();
+            let params = match to_params(st) {
+                Ok(p) => p,
+                Err(_) => return out,
+            };
+            if let Ok(Ok(cert)) = guarded(|| params.self_signed(&kp)) {
+                let pem = cert.pem();
+                note("CERTIFICATE", cert.der().len());
+                check_pem("certificate", &pem, "CERTIFICATE", cert.der(), &mut out.findings);
+                out.digest = fnv(pem.as_bytes());
+                out.transitions = 2;
+            }
+            out
+        });
+        rep.add(sec);
+        let cs = super::c07::csr_space(false);
+        let sec = Section::new("levels/csr-pem", "every CSR state at levels k<=2, thorough 3 (with its extra attributes): strict envelope, label CERTIFICATE REQUEST, decoded bytes == der()").with_deadline(if thorough { 600 } else { 30 });
+        run::levels(&sec, &cs, k - 1, &|c, _| {
+            let mut out = Outcome::default();
+            let params = match to_params(&c.st) {
+                Ok(p) => p,
+                Err(_) => return out,
+            };
+            let attrs = c.attrs.clone();
+            if let Ok(Ok(csr)) = guarded(|| params.serialize_request_with_attributes(&kp, attrs.iter().map(|a| rcgen::Attribute { oid: static_oid(&a.oid), values: a.values.clone() }).collect())) {
+                if let Ok(pem) = csr.pem() {
+                    note("CERTIFICATE REQUEST", csr.der().len());
+                    check_pem("csr", &pem, "CERTIFICATE REQUEST", csr.der(), &mut out.findings);
+                    out.digest = fnv(pem.as_bytes());
+                    out.transitions = 2;
+                }
+            }
+            out
+        });
+        rep.add(sec);
+        let iss = super::c08::issuers();
+        let crl_space = super::c08::crl_space(&iss, false);
+        let sec = Section::new("levels/crl-pem", "every CRL state at levels k<=2, thorough 3: strict envelope, label X509 CRL, decoded bytes == der()").with_deadline(if thorough { 600 } else { 30 });
+        run::levels(&sec, &crl_space, k - 1, &|c, _| {
+            let mut out = Outcome::default();
+            let params = match to_crl_params(&c.st) {
+                Ok(p) => p,
+                Err(_) => return out,
+            };
+            if let Ok(Ok(crl)) = guarded(|| params.signed_by(&issuer.cert, &issuer.key)) {
+                if let Ok(pem) = crl.pem() {
+                    note("X509 CRL", crl.der().len());
+                    check_pem("crl", &pem, "X509 CRL", crl.der(), &mut out.findings);
+                    out.digest = fnv(pem.as_bytes());
+                    out.transitions = 2;
+                }
+            }
+            out
+        });
+        rep.add(sec);
+    }
+    // 6. every DER length in a contiguous range (every number of complete lines and every remainder)
+    {
+        let hi = if thorough { 6000usize } else { 700 };
+        let lens: Vec<usize> = (144..=hi).collect();
+        let sec = Section::new("sweep/contiguous-lengths", "custom-extension content length 144..=700 (thorough ..=6000): the certificate's DER length takes every value of a contiguous range, so every line count and every last-line remainder occurs");
+        run::sweep_cases(&sec, &lens, &|l| format!("ext_len={}", l), &|l| {
+            let mut out = Outcome::default();
+            let mut st = CertState::default();
+            st.custom_exts = vec![CustomExtSpec { oid: vec![1, 2, 3, 4], critical: false, content: refmodel::der::octet(&vec![0x5a; *l]), acme: false }];
+            st.serial = Some(vec![7]);
+            if let Ok(Ok(cert)) = guarded(|| to_params(&st).unwrap().self_signed(&kp)) {
+                let pem = cert.pem();
+                check_pem("certificate", &pem, "CERTIFICATE", cert.der(), &mut out.findings);
+                out.digest = fnv(pem.as_bytes());
+                out.transitions = 2;
             }
             out
         });
